@@ -4,7 +4,7 @@
     [crypto_ok C] (Proofs/C44_base.v: a stored SHA-256/512 PHC hash / bcrypt hash verifies
     exactly the input it was made from; only the producing variant's decoder accepts it), for
     ALL states / histories / headers, without size bounds. *)
-From Verif Require Import Base.Prelude Model.C44 Proofs.C44_base Proofs.C44_pw Proofs.C44_auth.
+From Verif Require Import Base.Prelude Model.C44 Proofs.C44_base Proofs.C44_pw Proofs.C44_auth Proofs.C44_sess.
 
 (** The hypotheses are satisfiable: the instance the correspondence judge computes with meets them. *)
 Theorem C44_hypotheses_satisfiable : crypto_ok sym.
@@ -43,7 +43,7 @@ Print Assumptions C44_format_verifies_own_only_password.
 Theorem C44_password_only_latest :
   forall C, crypto_ok C -> forall strong ops u q,
     compare_password C (prun C ops (pinit C strong)) u q = 0%N <->
-    (acheck C (aprun C strong ops (ainit C)) u q = true /\ strength C strong q = Some 0%N).
+    (acheck C (aprun C strong ops (ainit C)) u q = true /\ strength C strong q = 0%N).
 Proof. exact password_only_latest. Qed.
 Print Assumptions C44_password_only_latest.
 
@@ -55,19 +55,37 @@ Proof. exact acheck_known. Qed.
 Print Assumptions C44_known_password_is_the_only_one.
 
 (** the full result class of ComparePassword after any history (wrong user / wrong password /
-    "matches but must be changed" / panic on the empty password under strong checking) *)
+    "matches but must be changed") *)
 Theorem C44_compare_after_history :
   forall C, crypto_ok C -> forall sp ops u q,
     compare_password C (prun C ops (pinit C sp)) u q =
       let a := aprun C sp ops (ainit C) in
-      match strength C sp q with
-      | None => 64%N
-      | Some e =>
-          if acheck C a u q then (if N.eqb e 0 then 0%N else 16 + e)%N
-          else match aget N.eqb u (a_users C a) with None => 1%N | Some _ => 2%N end
-      end.
+      let e := strength C sp q in
+      if acheck C a u q then (if N.eqb e 0 then 0%N else 16 + e)%N
+      else match aget N.eqb u (a_users C a) with None => 1%N | Some _ => 2%N end.
 Proof. exact compare_after_history. Qed.
 Print Assumptions C44_compare_after_history.
+
+(** password operations are total (code as of /repo commit 3a5dc47ac9, which guards the class
+    check of IsPasswordStrong with [l > 0]; before it the empty password made the check divide
+    by zero).  In the model a result is a return value: no password / user operation ever
+    yields the panic class 64, and the EMPTY password - with or without strong checking - is
+    rejected by SetPassword with exactly the length error, never accepted by ComparePassword,
+    and a CompareAndSetPassword to it fails and changes nothing.  Panic freedom of the Go code
+    itself is not a theorem: it is OBSERVED by the driver (every password call runs under
+    recover; a panic is reported as class 64, which the judge flags as a failing input). *)
+Theorem C44_password_ops_never_panic :
+  forall C st o, snd (pstep C st o) <> 64%N.
+Proof. exact password_ops_never_panic. Qed.
+Print Assumptions C44_password_ops_never_panic.
+
+Theorem C44_empty_password_rejected :
+  forall C st u salt p, slen C p = 0%N ->
+    set_password C st u salt p = (st, 4%N) /\
+    compare_password C st u p <> 0%N /\ compare_password C st u p <> 64%N /\
+    (forall old, snd (cas_password C st u salt old p) <> 0%N /\ fst (cas_password C st u salt old p) = st).
+Proof. exact empty_password_rejected. Qed.
+Print Assumptions C44_empty_password_rejected.
 
 (** a failed CompareAndSetPassword changes nothing *)
 Theorem C44_failed_cas_changes_nothing :
@@ -132,13 +150,6 @@ Theorem C44_token_must_be_active_refuted :
 Proof. exists witness_ops. split; [exact inactive_token_authenticates | reflexivity]. Qed.
 Print Assumptions C44_token_must_be_active_refuted.
 
-(** with strong-password checking, ComparePassword / SetPassword of the EMPTY password panics
-    (integer division by len(password) in IsPasswordStrong). Confirmed on the real code. *)
-Theorem C44_password_check_total_refuted :
-  trace sym (init sym true true V256) [OP sym (CreateUser sym); OP sym (CmpPw sym 0 SEmpty)] = [[0]; [64]]%N.
-Proof. exact empty_password_panics. Qed.
-Print Assumptions C44_password_check_total_refuted.
-
 (** ** 5. revocation, from ANY state (hence after any history) *)
 Theorem C44_deactivated_user_never_authenticates :
   forall C, crypto_ok C -> forall st u h ck renew p x,
@@ -168,6 +179,16 @@ Theorem C44_session_unusable_after_expiry :
     authenticate C (fst (step C st (OS C (Wait C d)))) h (Some k) renew <> (200%N, Some p, x).
 Proof. exact session_unusable_after_expiry. Qed.
 Print Assumptions C44_session_unusable_after_expiry.
+
+(** after ANY history of operations and probes (invariant over [fold_left step]: every index
+    entry points to a record carrying the entry's key), ExpireSession(key) makes the key unusable *)
+Theorem C44_expired_session_never_authenticates :
+  forall C, crypto_ok C -> forall sp uh hv ops k h renew p x,
+    (forall t j, h <> HTok C t j) ->
+    authenticate C (fst (step C (run C (init C sp uh hv) ops) (OS C (ExpireSess C k)))) h (Some k) renew
+      <> (200%N, Some p, x).
+Proof. exact expired_session_never_authenticates. Qed.
+Print Assumptions C44_expired_session_never_authenticates.
 
 (** ** 6. malformed / absent credentials are rejected *)
 Theorem C44_header_scheme :
